@@ -431,3 +431,30 @@ func (c *Ctx) runsBefore(root *ssa.Function, a, b ssa.Instruction) bool {
 	}
 	return true
 }
+
+
+// sameOrReturned: v is w, or the result of a call of a module function all of whose returns yield w (a set built by a helper).
+func sameOrReturned(v, w ssa.Value) bool {
+	v, w = core.Strip(v), core.Strip(w)
+	if v == w {
+		return true
+	}
+	cv, ok := v.(*ssa.Call)
+	if !ok {
+		return false
+	}
+	g := cv.Call.StaticCallee()
+	if g == nil || len(g.Blocks) == 0 {
+		return false
+	}
+	rvs := returnValues(g)
+	if len(rvs) == 0 {
+		return false
+	}
+	for _, rv := range rvs {
+		if core.Strip(rv) != w {
+			return false
+		}
+	}
+	return true
+}
